@@ -100,7 +100,7 @@ def replayer(name, args, kwargs, meta):
                 rel, want = _expected_real(m, pm_i, target, var_i, explicit, z)
                 if exists:
                     (z / rel).parent.mkdir(parents=True, exist_ok=True)
-                    (z / rel).write_text("OLD CONTENT\n")
+                    (z / rel).write_text(m.EXISTING[exists])
                 before = _user_files(z)
                 _run_real(m, z, pm_i, target, var_i, explicit, overwrite, tp)
                 after = _user_files(z)
@@ -116,7 +116,7 @@ def replayer(name, args, kwargs, meta):
                     _run_real(m, z, pm_i, target, var_i, explicit, overwrite, tp)
                     bad = _user_files(z) != after
                 desc = "init_from_template(patterns %r, target %r, vars %r, explicit template %s, overwrite %s) with the target %s" % (
-                    m.PATTERN_MAPS[pm_i], target, m.VAR_MAPS[var_i], explicit, overwrite, "existing" if exists else "missing")
+                    m.PATTERN_MAPS[pm_i], target, m.VAR_MAPS[var_i], explicit, overwrite, ["missing", "existing", "existing but empty"][exists])
                 return bad, {"summary": desc + ": files afterwards %r, expected %r" % (after, exp)}
             if name == "two_targets":
                 first, second, exists2 = args
@@ -168,7 +168,7 @@ def main():
         stubs=["c.prepend_zdir over an in-memory FS", "the manager's temp dir and jinja2 environment: in-memory environment whose "
                "render() returns prepared text + sorted variables (jinja2 trusted; real jinja2 in replay)",
                "strptime model for %Y%m%d (validated in replay)"],
-        bounds=["%d pattern maps (none, single, two, overlapping, same-basename templates) x %d targets x %d variable maps x 2^3 flags" % (
+        bounds=["%d pattern maps (none, single, two, overlapping, same-basename templates) x %d targets x %d variable maps x {missing, existing, existing and empty} x 2^2 flags" % (
             len(m.PATTERN_MAPS), len(m.TARGETS), len(m.VAR_MAPS)),
             "date kernel: years 20c4 with one symbolic digit, months {01,02,10,12}, days {01,09,10,28}"],
         outside=["8-digit captures that match the regex but are not calendar dates (strptime raises)",
